@@ -117,6 +117,7 @@ func Load(cfg Config) (*Program, error) {
 		}
 	}
 	p.AllFuncs = ssautil.AllFunctions(prog)
+	fieldInvariantFuncs = p.ModuleFuncs()
 	return p, nil
 }
 
